@@ -117,10 +117,12 @@ func (c *conn) Transport(ctx context.Context, request []byte) (response []byte, 
 		return nil, core.ErrRequestEntityTooLarge
 	}
 	resultChan := make(chan data, 1)
+	verifPoint("transport.beforeStore")
 	index, ok := c.store(resultChan)
 	if !ok {
 		return nil, ErrTooManyRequests
 	}
+	verifPoint("transport.afterStore")
 	select {
 	case <-ctx.Done():
 		c.delete(index)
@@ -237,12 +239,14 @@ func (c *conn) Close(err error) {
 		c.onClose(c.Conn)
 		_ = c.Conn.Close()
 	})
+	verifPoint("close.beforeClean")
 	c.rangeAndClean(func(index int, resultChan chan data) {
 		resultChan <- data{
 			Index: index,
 			Error: err,
 		}
 	})
+	verifPoint("close.afterClean")
 }
 
 type Transport struct {
